@@ -190,7 +190,10 @@ func c17Loc(i int) *time.Location {
 	if i%(n+8) >= n {
 		// fixed zones on the quarter-hour grid
 		q := []int{-48, -38, -14, -1, 1, 22, 51, 56}[i%(n+8)-n]
-		return time.FixedZone("fixed", q*900)
+		// the NAME of a zone carries no information for the coding: any label, also one
+		// that usually goes with another offset
+		name := []string{"fixed", "UTC", "GMT", "", "Local", "CST", "Z", "NameIsNotImportant"}[i/(n+8)%8]
+		return time.FixedZone(name, q*900)
 	}
 	l, err := time.LoadLocation(c17Locations[i%(n+8)])
 	if err != nil {
@@ -259,7 +262,8 @@ func c17StampsHourly(c *core.Ctx, k *core.Case) {
 	end := time.Date(int(k.I[0])+1, 1, 1, 0, 0, 0, 0, time.UTC).Unix()
 	var n int64
 	for s := start; s < end; s += 3600 {
-		c17Stamp(c, k, time.Unix(s+(s/3600*37)%3600, 0).In(loc))
+		// instants between the seconds: the element carries whole seconds, the rest is dropped
+		c17Stamp(c, k, time.Unix(s+(s/3600*37)%3600, (s/3600*7919%1000)*1000000+999).In(loc))
 		n++
 	}
 	c.Eval(n)
